@@ -127,6 +127,15 @@ func init() {
 			TokenStandard: types.ZnnTokenStandard, Amount: big.NewInt(0),
 			Data: definition.ABIToken.PackMethodPanic(definition.UpdateTokenMethodName, zts, Users[o.A].Address, o.B&1 != 0, o.B&2 != 0)})
 	}
+	// Tbig: transfer A -> B of 1 unit with V bytes of data (large stored block: big momentum patches)
+	Extra["Tbig"] = func(n *vnode.Node, o Op) string {
+		data := make([]byte, o.V)
+		for i := range data {
+			data[i] = byte(i*7 + o.A)
+		}
+		return submit(n, &nom.AccountBlock{BlockType: nom.BlockTypeUserSend, Address: Users[o.A].Address, ToAddress: Users[o.B].Address,
+			TokenStandard: types.ZnnTokenStandard, Amount: big.NewInt(1), Data: data})
+	}
 	// CancelGenesisFuse: user A (0 or 1) cancels the fusion it made for itself in the mock genesis (the two genesis
 	// fusions with non-zero ids; expiration height 0, so they can be cancelled at once). Afterwards A has no fused plasma.
 	Extra["CancelGenesisFuse"] = func(n *vnode.Node, o Op) string {
